@@ -135,12 +135,12 @@ theorem masterClean_of_idxIs {mb : Bytes} {Q : List Nat} (h : IdxIs mb Q) (hn : 
   omega
 
 /-- **the record the reader finds under the entry `put` wrote** -/
-theorem put_file_rec {f : FImg} {time : Bytes} {d2 : Disk} {bm cnt : Nat} {e0 nm : Bytes} {ft nb acc0 aux : Nat}
+theorem put_file_rec' {f : FImg} {time : Bytes} {d2 : Disk} {bm cnt : Nat} {e0 nm : Bytes} {ft nb acc0 aux : Nat}
     {s : WS} {dc : Disk} {Al : List Nat} (ctx : LoopCtx d2 bm cnt) (pk : PutOk f time)
     (ne : NewEntry e0 nm ft nb acc0 aux) (hres : LoopRes f d2 bm cnt e0 nb s dc Al)
-    (acc : Nat) (hacc : acc < 256) (r3 : Raw) (hr : ∀ j ∈ Al, r3.units[j]? = dc.raw.units[j]?) :
+    (acc : Nat) (hacc : acc < 256) (r3 : Raw) (hr : ∀ j ∈ Al, r3.units[j]? = dc.raw.units[j]?) (pfx : Bytes) :
     ∃ g st, FinalEntry s.entry (Ent.setAccess (Ent.setEof s.entry f.eof) acc) nm st ft acc aux f.eof ∧ (st = 1 ∨ st = 2 ∨ st = 3) ∧
-      Read.ProdosT.readFile r3 d2.total (Ent.setAccess (Ent.setEof s.entry f.eof) acc) [] = .ok g ∧
+      Read.ProdosT.readFile r3 d2.total (Ent.setAccess (Ent.setEof s.entry f.eof) acc) pfx = .ok g ∧
       g.chunks = chunksQ f ∧ g.owned.Nodup ∧ (∀ u, u ∈ g.owned ↔ u ∈ Al) ∧ Al.length = blocksNeeded f ∧
       ¬ (le16 (Ent.setAccess (Ent.setEof s.entry f.eof) acc) 0x11 = 0 ∨
          le16 (Ent.setAccess (Ent.setEof s.entry f.eof) acc) 0x11 ≥ d2.total) ∧
@@ -161,7 +161,7 @@ theorem put_file_rec {f : FImg} {time : Bytes} {d2 : Disk} {bm cnt : Nat} {e0 nm
     | none => rw [hl] at h0; cases h0
     | some data =>
       obtain ⟨hal, hu⟩ := inv.dat data hl
-      have hrf := seed_read ctx inv data hl r3 hr _ fe.same d2.total []
+      have hrf := seed_read ctx inv data hl r3 hr _ fe.same d2.total pfx
       have hch : f.chunks = [(0, data)] := by
         have := chunks_enum f pk.keys
         rw [he, show List.range 1 = [0] from rfl, List.filterMap_cons, hl] at this
@@ -180,7 +180,7 @@ theorem put_file_rec {f : FImg} {time : Bytes} {d2 : Disk} {bm cnt : Nat} {e0 nm
         omega
   · have core := inv.core
     have fe := final_entry ne core.ent (by decide) f.eof acc heof hacc
-    have hrf := sap_read ctx inv h256 r3 hr _ fe.same []
+    have hrf := sap_read ctx inv h256 r3 hr _ fe.same pfx
     rw [chunksQ_enum f pk.keys] at hrf
     refine ⟨_, 2, fe, Or.inr (Or.inl rfl), hrf, rfl, core.own, ?_, ?_, ?_, fun h => absurd h (by decide),
       by rw [fe.same.key, core.ent.key]; exact core.ip⟩
@@ -202,7 +202,7 @@ theorem put_file_rec {f : FImg} {time : Bytes} {d2 : Disk} {bm cnt : Nat} {e0 nm
       omega
   · have fe := final_entry ne inv.ent (by decide) f.eof acc heof hacc
     have hmc : s.masterCount ≤ 127 := by have := inv.cc; have := pk.endle; omega
-    have hrf := tree_read ctx inv hmc r3 hr _ fe.same []
+    have hrf := tree_read ctx inv hmc r3 hr _ fe.same pfx
     have hcq : (List.range f.end_).filterMap (chunkQ f) = chunksQ f := chunksQ_enum f pk.keys
     rw [hcq] at hrf
     have hMAl : s.masterPtr ∈ Al := (inv.ownAl _).mp List.mem_cons_self
@@ -217,5 +217,18 @@ theorem put_file_rec {f : FImg} {time : Bytes} {d2 : Disk} {bm cnt : Nat} {e0 nm
       obtain ⟨_, _, hu, _⟩ := unit_of_al ctx inv.a r3 hr s.masterPtr hMAl
       rw [hu, inv.mblk]
       exact masterClean_of_idxIs inv.mbuf (by rw [List.length_append, List.length_map, inv.gl]; simp; omega)
+
+theorem put_file_rec {f : FImg} {time : Bytes} {d2 : Disk} {bm cnt : Nat} {e0 nm : Bytes} {ft nb acc0 aux : Nat}
+    {s : WS} {dc : Disk} {Al : List Nat} (ctx : LoopCtx d2 bm cnt) (pk : PutOk f time)
+    (ne : NewEntry e0 nm ft nb acc0 aux) (hres : LoopRes f d2 bm cnt e0 nb s dc Al)
+    (acc : Nat) (hacc : acc < 256) (r3 : Raw) (hr : ∀ j ∈ Al, r3.units[j]? = dc.raw.units[j]?) :
+    ∃ g st, FinalEntry s.entry (Ent.setAccess (Ent.setEof s.entry f.eof) acc) nm st ft acc aux f.eof ∧ (st = 1 ∨ st = 2 ∨ st = 3) ∧
+      Read.ProdosT.readFile r3 d2.total (Ent.setAccess (Ent.setEof s.entry f.eof) acc) [] = .ok g ∧
+      g.chunks = chunksQ f ∧ g.owned.Nodup ∧ (∀ u, u ∈ g.owned ↔ u ∈ Al) ∧ Al.length = blocksNeeded f ∧
+      ¬ (le16 (Ent.setAccess (Ent.setEof s.entry f.eof) acc) 0x11 = 0 ∨
+         le16 (Ent.setAccess (Ent.setEof s.entry f.eof) acc) 0x11 ≥ d2.total) ∧
+      (st = 3 → MasterClean (unitAt r3 (le16 (Ent.setAccess (Ent.setEof s.entry f.eof) acc) 0x11))) ∧
+      le16 (Ent.setAccess (Ent.setEof s.entry f.eof) acc) 0x11 ∈ Al :=
+  put_file_rec' ctx pk ne hres acc hacc r3 hr []
 
 end A2Verif.FsProdos
